@@ -19,6 +19,17 @@ def streams : List (String × Stream) := ([] : List (String × Stream))
   |>.cons ("handles", HandlesStream.stream)
   |>.cons ("snapsched", SnapSchedStream.stream)
   |>.cons ("backup", BackupStream.stream)
+import Nervus.Driver.Cypher
+import Nervus.Driver.CypherUpdate
+open Nervus.Driver
+
+/-- stream registry: one line per stream (kept one-per-line so that merges are unions) -/
+def streams : List (String × Stream) := [
+  ("okey", OKeyStream.stream),
+  ("query", CypherStream.stream),
+  ("querystat", CypherStream.statStream),
+  ("update", UpdateStream.stream),
+]
 
 def main (args : List String) : IO UInt32 := do
   match args with
